@@ -193,4 +193,37 @@ def wfICMP6 (hostMAC dstMAC sip dip msg f : Bytes) : Option String :=
         else if zero16 ip.payload 2 ≠ zero16 msg 2 then some "ICMPv6 message differs from the requested one"
         else none
 
+/-- structural well-formedness of *any* frame the library transmits (no expected field values): complete
+    Ethernet/ARP, Ethernet/IPv4/{UDP,ICMP}, Ethernet/IPv6/{UDP,ICMPv6} with consistent lengths and verifying
+    checksums, host MAC as Ethernet source, hop limit 255 for link-local neighbour discovery -/
+def wfAny (hostMAC f : Bytes) : Option String :=
+  match decEth f with
+  | none => some "not an Ethernet frame"
+  | some e =>
+    if e.src ≠ hostMAC then some "Ethernet source is not the host NIC MAC"
+    else if e.etype == 0x0806 then
+      (if (decArp e.payload).isSome then none else some "ARP body is not a complete Ethernet/IPv4 ARP packet")
+    else if e.etype == 0x0800 then
+      match decIp4 e.payload with
+      | none => some "IPv4 header not complete/consistent (version, IHL, TotalLen, checksum, fragment)"
+      | some ip =>
+        if ip.proto == 17 then (if (decUdp ip.payload).isSome then none else some "UDP header not complete/consistent (length)")
+        else if ip.proto == 1 then (if icmp4Ok ip.payload then none else some "ICMP message too short or checksum does not verify")
+        else none
+    else if e.etype == 0x86dd then
+      match decIp6 e.payload with
+      | none => some "IPv6 header not complete/consistent (version, payload length)"
+      | some ip =>
+        if u8 ip.dst 0 == 0xff ∧ e.dst ≠ mcastMAC6 ip.dst then some "IPv6 multicast destination without the matching 33:33 MAC"
+        else if ip.next == 58 then
+          (if !icmp6Ok ip.src ip.dst ip.payload then some "ICMPv6 message too short or checksum (with pseudo header) does not verify"
+           else if isNDP (u8 ip.payload 0) ∧ linkLocal6 ip.dst ∧ ip.hop ≠ 255 then some "link-local neighbour-discovery message with hop limit other than 255"
+           else none)
+        else if ip.next == 17 then
+          (if (decUdp ip.payload).isNone then some "UDP header not complete/consistent (length)"
+           else if !udp6CksumOk ip.src ip.dst ip.payload then some "UDP checksum over IPv6 is zero or does not verify"
+           else none)
+        else none
+    else none
+
 end PV.Spec.Wire
